@@ -1042,8 +1042,13 @@ func (t *tokenizer) readTimestamp() (string, error) {
 	if c, err = t.read(); err != nil {
 		return "", err
 	}
-	if isDigit(c) {
-		if c, err = t.readDigits(c, &w); err != nil {
+	if !isDigit(c) {
+		return "", t.invalidChar(c)
+	}
+	// One or more plain digits; unlike in numbers, no underscores.
+	for isDigit(c) {
+		w.WriteByte(byte(c))
+		if c, err = t.read(); err != nil {
 			return "", err
 		}
 	}
